@@ -451,6 +451,8 @@ class C09(Engine):
 		cases.append({'mode': 'rebuild', 'pool': pool, 'texts': ['def calc(a: int) -> int:\n\treturn a', 'def calc(b: str) -> str:\n\treturn b', 'def calc(a: int) -> int:\n\treturn a']})
 		cases.append({'mode': 'rebuild', 'pool': pool, 'texts': base[:4] + base[:2]})
 		cases.append({'mode': 'rebuild', 'pool': pool, 'texts': [base[-1], base[-2], base[-1], base[1]]})
+		from tranpsim.corpus import texts as corpus_texts
+		cases.append({'mode': 'rebuild', 'pool': pool, 'texts': [corpus_texts.STANDALONE[9], corpus_texts.STANDALONE[0], corpus_texts.STANDALONE[8], corpus_texts.STANDALONE[9]]})
 		cases.append({'mode': 'rebuild', 'pool': pool, 'texts': [base[1], 'def f(k: int) -> int:\n\ta = k\n\tb = a\n\treturn undefined_name + b', base[1], 'class A:\n\tn: int\ndef f() -> int:\n\ta = A()\n\tb = a\n\treturn b.missing', base[1], base[0]]})
 		return cases
 
